@@ -94,6 +94,8 @@ vector<double> NumCalcApplicationTools::getVector(const std::string& desc)
         throw Exception("Unvalid sequence specification, too many values: " + desc);
       for (double x = start; x <= end + NumConstants::TINY(); x += step)
       {
+        if (!(x + step > x))
+          throw Exception("Unvalid sequence specification, 'step' is too small compared to the bounds: " + desc);
         double y;
         switch (scale)
         {
